@@ -16,7 +16,8 @@ EXPLANATION = (
     "only writers of the pub(crate) raw buffer Record.0 are the two validating read_record paths and tabled constructors, "
     "so every RecordRef::new_unchecked consumer sees a validated buffer; (R6) dec∘enc = id exhaustively for the CIGAR "
     "kind, aux type and array subtype tables (match-arm tables from type-checked HIR), missing-value sentinels agree; "
-    "(R7) reg2bin geometry constants (shifts 14..26 step 3, offsets ((1<<k)-1)/7) and UNMAPPED_BIN = 4680.")
+    "(R7) reg2bin geometry constants (shifts 14..26 step 3, offsets ((1<<k)-1)/7) and UNMAPPED_BIN = 4680."
+    " (R8) reused destination: every entry->Ok path of the eager decoder overwrites or clears each of the twelve RecordBuf columns (whole-object store, clear, or a callee that definitely resets its parameter), so a record decoded into a reused buffer carries nothing of the previous one.")
 ASSUMPTIONS = ["interval reasoning is dominance-based, not path-sensitive; what it cannot prove is tabled with a reason",
                "match tables are read from type-checked HIR patterns; values computed by arithmetic are out of reach"]
 NOT_DECIDED = ["whole-record equality over all field values", "aux value range boundaries, 4-bit base packing for odd lengths (unit-test territory)",
